@@ -26,7 +26,7 @@ ASSUMPTIONS = [
     "maxnan missing values",
     "sums compared to 1e-11 x sum|v| (exact on the lattice), max / tail exactly",
 ]
-OBLIGATIONS = {"values:one-infinite": 10, "size-edge": 20, "reuse-array": 100, "values:mixed-magnitude": 10, "maxnan:on-a-group-count": 100, "op0": 50, "op1": 50, "op2": 50, "op3": 50, "neg-values+max": 20,
+OBLIGATIONS = {"m2d:all-zero": 2, "gap:long-run-of-missing-values": 8, "values:one-infinite": 10, "size-edge": 20, "reuse-array": 100, "values:mixed-magnitude": 10, "maxnan:on-a-group-count": 100, "op0": 50, "op1": 50, "op2": 50, "op3": 50, "neg-values+max": 20,
                "nan-last-in-group+tail": 20, "whole-group-nan": 20, "single-group": 10,
                "n=1": 5, "extreme-index": 10, "reject:decreasing": 30,
                "flathomogen": 50, "goue": 20, "goue:transform": 5, "m2d:flat": 10, "m2d:cubic": 10,
@@ -493,6 +493,28 @@ def run(ctx):
                 run_reject_case(ctx, {"kind": "reject", "index": bad, "values": vn,
                                       "op": it % 4, "maxnan": [0, 1, 2, 10 ** 6][it % 4]})
                 ctx.tag("reject:decreasing-with-missing-values")
+    # very long gaps: a group holding as many missing values as a narrow counter can
+    # hold (2**8, 2**15, 2**16 and neighbours, 2**17) next to a few valid ones
+    counts = [255, 256, 257, 32767, 32768, 65535, 65536, 65537, 65540, 131072, 131075]
+    for j, cnt in enumerate(counts):
+        if (j % ctx.nshards) != (ctx.shard % len(counts)) and ctx.nshards > 1 \
+                and (j % ctx.nshards) != ctx.shard:
+            continue
+        if ctx.out_of_time():
+            break
+        ctx.tag("gap:long-run-of-missing-values")
+        nval = int(rng.integers(1, 6))
+        pre = int(rng.integers(0, 4))
+        v = np.concatenate([rng.normal(size=pre) + 5, np.full(cnt, np.nan),
+                            rng.normal(size=nval) + 5, rng.normal(size=3)])
+        rng.shuffle(v[pre:pre + cnt + nval])
+        idx = np.concatenate([np.zeros(pre), np.ones(cnt + nval), np.full(3, 2)]).astype(
+            np.int32)
+        for maxnan in (0, 5, cnt - 1, cnt, cnt % 256, cnt % 65536, 2 ** 31 - 1):
+            run_agg_case(ctx, {"kind": "agg", "index": idx, "values": v, "op": j % 4,
+                               "maxnan": int(maxnan)})
+        run_flat_case(ctx, {"kind": "flat", "index": idx, "values": v,
+                            "maxnan": [0, cnt % 65536, cnt - 1][j % 3]})
     nm = 12 if ctx.tier == "quick" else 300
     for it in range(nm):
         if ctx.out_of_time():
@@ -512,6 +534,15 @@ def run(ctx):
         else:
             vals = rng.gamma(0.5, 50, size=nmon)
             vals[rng.random(nmon) < 0.3] = 0.0
+        if it % 6 == 1:
+            vals = np.zeros(nmon)                       # a dry record
+            ctx.tag("m2d:all-zero")
+        elif it % 6 == 4:
+            vals = np.full(nmon, [31.0, 0.25, 1e-6, 1e6][it // 6 % 4])    # constant months
+            ctx.tag("m2d:constant")
+        elif it % 6 == 5:
+            vals = vals.copy()
+            vals[: max(1, nmon - 1)] = 0.0              # dry but for the last month
         for interp in ("flat", "cubic"):
             run_m2d_case(ctx, {"kind": "m2d", "start": f"{year:04d}-{month:02d}-01",
                                "values": vals, "interpolation": interp,
